@@ -726,8 +726,8 @@ func c10DecodeConcurrent(c *core.Ctx, k *core.Case) {
 
 func init() {
 	p := &core.Property{
-		ID:   "C10",
-		Rule: "decode: accepted and rejected inputs (random plans in nine presence patterns, their mutations, repository samples) through the three entry points with the input placed in a slice with guarded spare capacity: input octets, slice header and spare capacity unchanged; no []byte reachable from the message lies inside the input's backing array (address ranges via reflection); flipping every input octet leaves the message deep-equal to its snapshot and vice versa; two runs agree. encode: well-formed messages into buffers pre-filled with 0..64 octets and 0..64 octets of spare capacity: message deep-equal to its snapshot, prefix unchanged, appended bytes equal an encode into an empty buffer, no aliasing between message and output. Non-trivial = accepted input with at least one buffer-backed element, or encode with a non-empty prefill; distinct by bytes.",
+		ID:          "C10",
+		Rule:        "decode: accepted and rejected inputs (random plans in nine presence patterns, their mutations, repository samples) through the three entry points with the input placed in a slice with guarded spare capacity: input octets, slice header and spare capacity unchanged; no []byte reachable from the message lies inside the input's backing array (address ranges via reflection); flipping every input octet leaves the message deep-equal to its snapshot and vice versa; two runs agree. encode: well-formed messages into buffers pre-filled with 0..64 octets and 0..64 octets of spare capacity: message deep-equal to its snapshot, prefix unchanged, appended bytes equal an encode into an empty buffer, no aliasing between message and output. Non-trivial = accepted input with at least one buffer-backed element, or encode with a non-empty prefill; distinct by bytes.",
 		Assumptions: []string{"address-range comparison uses reflect.Value.Pointer / unsafe on live slices in one goroutine"},
 		Oracles:     map[string]func(*core.Ctx, *core.Case){"decode-pure": c10Decode, "encode-pure": c10Encode, "decode-concurrent": c10DecodeConcurrent, "decode-reuse": c10DecodeReuse},
 	}
